@@ -20,7 +20,10 @@ def rt_rule(item):
     return ("rapid-generated stream histories of 1-8 %s batches on one producer/consumer pair (hostile string pool, boundary numbers, zero/absence grid, "
             "activation schedule for optional columns, resource/scope pools with exact copies and confusion-mutated siblings); a case is NON-TRIVIAL when "
             "(>=2 non-empty batches and a schema update happened after the first non-empty batch) or (a copied/sibling resource or scope was constructed in a non-empty stream); "
-            "DISTINCT = FNV-64 hash of the per-batch shape vectors (bucketed container/item/child counts, value kinds) plus the set of producer-observer event kinds" % item)
+            "DISTINCT = FNV-64 hash of the per-batch shape vectors (bucketed container/item/child counts, value kinds) plus the set of producer-observer event kinds. "
+            "Rare plans inside the same generator: a batch with exactly 65,535 / 65,534 / 40,000 / 32,768 attribute-bearing parents, list values of 65,536-200,000 elements. "
+            "Second job: long-haul streams (one 40,000-60,000 item batch repeated until the main record and every related record type of >= 1 MiB has carried > 75 MiB, "
+            "i.e. more than the default consumer memory limit), always non-trivial" % item)
 
 
 PROPS = {
@@ -32,8 +35,8 @@ PROPS = {
         "rule": rt_rule("trace"),
         "assumptions": ROUNDTRIP_ASSUME,
         "jobs": {
-            "quick": [{"test": "TestC01", "shards": 8, "checks": 12000, "timeout": 900}],
-            "thorough": [{"test": "TestC01", "shards": 16, "checks": 160000, "timeout": 3000}],
+            "quick": [{"test": "TestC01", "shards": 8, "checks": 12000, "timeout": 900}, {"test": "TestC01Haul", "shards": 1, "checks": 1, "timeout": 900, "shrinktime": "1s"}],
+            "thorough": [{"test": "TestC01", "shards": 16, "checks": 160000, "timeout": 3000}, {"test": "TestC01Haul", "shards": 3, "checks": 3, "timeout": 3000, "shrinktime": "1s"}],
         },
     },
     "C02": {
@@ -44,8 +47,8 @@ PROPS = {
         "rule": rt_rule("log"),
         "assumptions": ROUNDTRIP_ASSUME,
         "jobs": {
-            "quick": [{"test": "TestC02", "shards": 8, "checks": 12000, "timeout": 900}],
-            "thorough": [{"test": "TestC02", "shards": 16, "checks": 160000, "timeout": 3000}],
+            "quick": [{"test": "TestC02", "shards": 8, "checks": 12000, "timeout": 900}, {"test": "TestC02Haul", "shards": 1, "checks": 1, "timeout": 900, "shrinktime": "1s"}],
+            "thorough": [{"test": "TestC02", "shards": 16, "checks": 160000, "timeout": 3000}, {"test": "TestC02Haul", "shards": 3, "checks": 3, "timeout": 3000, "shrinktime": "1s"}],
         },
     },
     "C03": {
@@ -56,8 +59,8 @@ PROPS = {
         "rule": rt_rule("metric"),
         "assumptions": ROUNDTRIP_ASSUME,
         "jobs": {
-            "quick": [{"test": "TestC03", "shards": 8, "checks": 12000, "timeout": 900}],
-            "thorough": [{"test": "TestC03", "shards": 16, "checks": 160000, "timeout": 3000}],
+            "quick": [{"test": "TestC03", "shards": 8, "checks": 12000, "timeout": 900}, {"test": "TestC03Haul", "shards": 1, "checks": 1, "timeout": 900, "shrinktime": "1s"}],
+            "thorough": [{"test": "TestC03", "shards": 16, "checks": 160000, "timeout": 3000}, {"test": "TestC03Haul", "shards": 3, "checks": 3, "timeout": 3000, "shrinktime": "1s"}],
         },
     },
 }
@@ -88,11 +91,11 @@ PROPS.update({
         "technique": "property-based no-panic search (rapid) over hostile OTLP values x options x histories, plus generated giant batches around the 16-bit id width with an error-expected oracle",
         "level_text": "Generated-input search with a recover wrapper around every producer call: a recovered panic is the failure. Inputs lift every domain restriction (invalid UTF-8, timestamps >= 2^63, nesting beyond 16, zero-first list/struct columns), interleave signals and options, and giants with 65,535..131,073 parents must be refused with an error (and accepted at <= 65,535) with later small batches unaffected.",
         "design_ref": "DESIGN.md §7 C08",
-        "rule": "two generators: (a) option x history cases of 1-5 hostile batches, NON-TRIVIAL = a batch introduced a new column or follows a refused batch; (b) giants = (family of 15, n in {65535,65536,65537,70000,131073}, 0-2 small batches before/after), all non-trivial; DISTINCT = FNV-64 of the option/shape vector resp. the giant parameters",
+        "rule": "two generators: (a) option x history cases of 1-5 hostile batches, NON-TRIVIAL = a batch introduced a new column or follows a refused batch; (b) giants = one of EVERY family (22: parents, containers, shared scopes, children tables) per case, n in {65535,65536,65537,70000,131073}, 0-2 small batches before/after, all non-trivial; DISTINCT = FNV-64 of the option/shape vector resp. the giant parameters",
         "assumptions": OPTION_ASSUME + ["a panic anywhere below Producer.BatchArrowRecordsFrom*/Close is caught by recover in the harness adapter", "for exactly 65,536 parents either outcome (batch or error) is accepted"],
         "jobs": {
-            "quick": [{"test": "TestC08", "shards": 8, "checks": 6400, "timeout": 900}, {"test": "TestC08Giants", "shards": 4, "checks": 40, "timeout": 900}],
-            "thorough": [{"test": "TestC08", "shards": 12, "checks": 60000, "timeout": 3000}, {"test": "TestC08Giants", "shards": 4, "checks": 400, "timeout": 3000}],
+            "quick": [{"test": "TestC08", "shards": 8, "checks": 6400, "timeout": 900}, {"test": "TestC08Giants", "shards": 6, "checks": 6, "timeout": 900}],
+            "thorough": [{"test": "TestC08", "shards": 12, "checks": 60000, "timeout": 3000}, {"test": "TestC08Giants", "shards": 6, "checks": 48, "timeout": 3000}],
         },
     },
     "C12": {
